@@ -261,8 +261,30 @@ func genSpelledOrigin(t *rapid.T) originCase {
 		rel = append(rel, gen.FlipCase(t, wm.Name(org[:1]))...)
 	}
 	return originCase{Spelled: true, OriginFQ: rapid.Bool().Draw(t, "ofq"),
-		TRel: spellNameStyled(rel, rapid.Uint64().Draw(t, "stylerel"), true),
-		TOrg: spellNameStyled(org, rapid.Uint64().Draw(t, "styleorg"), true)}
+		TRel:  spellNameStyled(rel, rapid.Uint64().Draw(t, "stylerel"), true),
+		TOrg:  spellNameStyled(org, rapid.Uint64().Draw(t, "styleorg"), true),
+		TOrg2: spellNameStyled(org, rapid.Uint64().Draw(t, "styleorg2"), true)}
+}
+
+// quotedVsRaw: in one of the labels the two names share (counted from the right, by the wire
+// labels) an octet is written as a backslash and the character itself in one name and raw in the
+// other - `\a` against `a` or `A`, `\-` against `-`, `\1` against `1`: a character that needs no
+// quoting is quoted (dot and backslash have no raw spelling). The two texts then agree again to the
+// right of that character, one position apart.
+func quotedVsRaw(ta, tb []string, shared int) bool {
+	for i := 1; i <= shared; i++ {
+		ua, oka := readUnits(ta[len(ta)-i])
+		ub, okb := readUnits(tb[len(tb)-i])
+		if !oka || !okb || len(ua) != len(ub) {
+			continue
+		}
+		for j := range ua {
+			if !ua[j].ddd && !ub[j].ddd && len(ua[j].text) != len(ub[j].text) {
+				return true
+			}
+		}
+	}
+	return false
 }
 
 func init() {
